@@ -76,7 +76,7 @@ CLAIMED = {
 }
 
 CLAIMED.update({
-    "C12": _c("type-checked facts (variances_of, impl predicates, lifetime-only transmute inventory with CFG dominance) + compile-fail witness corpus with compiling twins",
+    "C12": _c("type-checked facts (variances_of, impl predicates, lifetimes in Collect impl Self types, lifetime-only transmute inventory) + abstract interpretation of the dynamic-root gate + compile-fail witness corpus with compiling twins",
               "Variance, 'static-impl and re-branding facts are global facts of the type-checked program, so they settle the "
               "question for all client programs; the escape corpus (88 probes, each compiled twice against the current tree) pins "
               "each escape route through each callback entry point. rustc's own lifetime checking is trusted."),
@@ -91,9 +91,11 @@ CLAIMED.update({
     "C19": _c("no-address-arithmetic scan over conversion closures + ordering-domain interpretation of the ZstCache guard + type-signature conjuring lint + witnesses",
               "Identity of every named conversion as a structural fact of its MIR; the ZstCache guard over all orderings of "
               "size/align/MAX_ALIGN; the conjuring lint over the whole public API (found ZstCache::alloc_zst, fix f123ef0)."),
-    "C20": _c("item + MIR scan for shared mutable state in every feature configuration, with a positive-control fixture crate; construction who-may-call rules",
-              "The crate has no static mut / non-Freeze static / thread-local; all collector state is created per arena. This is the "
-              "right level: independence is the absence of a shared channel, which is a whole-program structural fact."),
+    "C20": _c("item + MIR scan for shared mutable state in every feature configuration, with a positive-control fixture crate; construction who-may-call rules; abstract interpretation of the dynamic-root gate (fetch/try_fetch/contains) on terms",
+              "The crate has no static mut / non-Freeze static / thread-local; all collector state is created per arena; the one "
+              "cross-arena channel (DynamicRoot handles) is closed because fetch/try_fetch re-brand only when contains() is true and "
+              "contains() is the identity comparison of the set's Rc with the handle's Weak. This is the right level: independence is "
+              "the absence of a shared channel, which is a whole-program structural fact."),
 })
 for e in ENGINES:
     if e["name"] == "gcv-driver":
